@@ -284,6 +284,15 @@ class Gen:
             return self.loop_stmt(sc, d)
         if r < 0.94 and self.loop_depth > 0:
             return [self.loop_exit(sc, d)]
+        if self.chance(0.45):
+            # a logic expression in statement position (value discarded): it still short-circuits, the traces show which
+            # operands ran
+            lhs = ("trace", self.next_trace(), self.expr(self.pick(["bool", "bool", "int", "str"]), sc, d + 1) if self.chance(0.8) else ("null",))
+            rhs = ("trace", self.next_trace(), self.expr(self.pick(KINDS), sc, d + 1))
+            e = ("bin", self.pick(["and", "or"]), lhs, rhs)
+            if self.chance(0.3):
+                e = ("bin", self.pick(["and", "or"]), e, ("trace", self.next_trace(), self.expr("bool", sc, d + 1)))
+            return [e]
         return [("trace", self.next_trace(), self.expr(self.pick(KINDS), sc, d + 1))]
 
     def next_trace(self):
@@ -541,6 +550,16 @@ class GenFn(Gen):
         acc = self.expr("int", self.fn_scope(sc, [(n, "int")]), d + 2)
         body = [("if", [(("bin", "<=", ("var", n), ("int", 0)), [acc])],
                  [("bin", self.pick(["+", "*", "-"]), ("var", n), ("call", ("var", name), [("bin", "-", ("var", n), ("int", 1))]))])]
+        if self.chance(0.5):
+            # self reference combined with default values: the function captures itself *and* its defaults
+            accn = self.fresh("acc")
+            dflt = ("int", self.rng.randint(-3, 9))
+            body = [("if", [(("bin", "<=", ("var", n), ("int", 0)), [("var", accn)])],
+                     [("call", ("var", name), [("bin", "-", ("var", n), ("int", 1)), ("bin", self.pick(["+", "-"]), ("var", accn), ("var", n))])])]
+            node = ("fn", [(("var", n), None), (("var", accn), dflt)], None, body, False, self.free_names(body, {n, accn}), None)
+            sig = FnSig(["small", "int"], 1, 1, False, "int")
+            sc.vars[name] = Var(name, "fn_int", protected=True, keys=sig)
+            return [("assign", ("var", name), node)]
         node = ("fn", [(("var", n), None)], None, body, False, self.free_names(body, {n}), None)
         sig = FnSig(["small"], 1, 0, False, "int")
         sc.vars[name] = Var(name, "fn_int", protected=True, keys=sig)
@@ -1165,8 +1184,47 @@ class GenErr(GenFn):
         finally:
             self.try_depth -= 1
 
+    def loop_try_exit(self, sc, d):
+        """break / continue leave a try block (or its catch block) inside a loop; afterwards an error is thrown and caught
+        in the same function: the catch points of the abandoned try blocks must be gone."""
+        st, i, tv, e, e2, tv2 = self.fresh("st"), self.fresh("i"), self.fresh("tv"), self.fresh("e"), self.fresh("e"), self.fresh("tv")
+        for nme, kind in ((st, "list"), (tv, "str"), (tv2, "str")):
+            sc.vars[nme] = Var(nme, kind, protected=True)
+        n = self.rng.randint(2, 5)
+        pick = lambda: self.rng.randint(0, n)
+        def exit_stmt():
+            return ("continue",) if self.chance(0.5) else ("break", None)
+        body = [("mcall", ("var", st), "push", [("var", i)])]
+        if self.chance(0.8):
+            body.append(("if", [(("bin", "==", ("var", i), ("int", pick())), [exit_stmt()])], None))
+        nested = self.chance(0.3)
+        if self.chance(0.7):
+            body.append(("if", [(("bin", "==", ("var", i), ("int", pick())), [("throw", ("str", ["e%d" % self.next_err()]))])], None))
+        if self.chance(0.5):
+            body.append(("if", [(("bin", "==", ("var", i), ("int", pick())), [exit_stmt()])], None))
+        body.append(("str", ["try-value"]))
+        cbody = [("print", [("str", ["loop catch"]), ("var", e)])]
+        if self.chance(0.5):
+            cbody.append(("if", [(("bin", "==", ("var", i), ("int", pick())), [exit_stmt()])], None))
+        cbody.append(("str", ["caught"]))
+        node = ("try", body, [(("var", e), None, cbody)], None)
+        if nested:
+            e3 = self.fresh("e")
+            node = ("try", [("assign", ("var", tv), node), ("var", tv)], [(("var", e3), None, [("print", [("str", ["outer loop catch"]), ("var", e3)]), ("str", ["caught-outer"])])], None)
+        loop_body = [("assign", ("var", tv), node), ("print", [("var", tv), ("var", i)])]
+        if self.chance(0.4):
+            # an error in a later iteration *outside* of the try: nothing in the loop may catch it
+            loop_body.append(("if", [(("bin", "==", ("var", i), ("int", n + 5)), [("throw", ("str", ["never"]))])], None))
+        out = [("assign", ("var", st), ("list", [])), ("assign", ("var", tv), ("str", ["unset"])),
+               ("for", [("var", i)], ("range", ("int", 0), ("int", n), False), loop_body),
+               ("assign", ("var", tv2), ("try", [("throw", ("str", ["after%d" % self.next_err()]))], [(("var", e2), None, [("print", [("str", ["after catch"]), ("var", e2)]), ("str", ["ok"])])], None)),
+               ("print", [("var", tv2), ("var", st)])]
+        return out
+
     def stmt(self, sc, d):
         r = self.rng.random()
+        if r < 0.08 and d <= 1 and self.loop_depth == 0:
+            return self.loop_try_exit(sc, d)
         if r < 0.4 and d <= 1:
             out, esc = self.try_stmt(sc, d)
             return out
